@@ -135,4 +135,9 @@ def material(rng, negative_bcoh=False, special=True):
         for k in list(kw):
             if rng.random() < 0.7:
                 kw[k] = int(rng.integers(2, 9)) * (-1 if kw[k] < 0 else 1)
+    elif special and rng.random() < 0.08:
+        # scattering lengths in other units (A^2 or cm^2 instead of fm^2): the same physics with both constants 10^-10 times smaller
+        # (both, so that their ratio — the conditioning of DCS <-> S — stays what it was); every formula is homogeneous in them
+        kw["<b_coh>^2"] *= 1e-10
+        kw["<b_tot^2>"] *= 1e-10
     return kw
